@@ -10,7 +10,7 @@ use serde_json::json;
 pub static MONITOR: Monitor = Monitor {
     id: "C01",
     title: "Rendering is total: any bytes, width and configuration; never panics or hangs",
-    rule: "Each case is one document (grammar-generated, byte-mutated, hostile numeric attributes, byte soup, deep nesting, CSS-bearing) rendered through every public route (string_from_read, lines_from_read, coloured, parse_html->dom_to_render_tree->render_to_string/lines on clones, Display of the tree) at several widths from {0,1,2,..,200,10^5,usize::MAX} under a random configuration from the property's product. Oracle: outcome must be Ok or Err(TooNarrow); a panic (location recorded), fuel exhaustion at a hooked loop, another Err, worker death or wall-clock timeout confirmed in isolation is a violation. A case is non-trivial/distinct by the hash of (outcome kind, output text) of a call that returned Ok with non-empty text.",
+    rule: "Each case is one document (grammar-generated, the same with emoji / variation-selector / zero-width-joiner / jamo / wide-space sequences sprinkled into the text, byte-mutated, hostile numeric attributes, byte soup, deep nesting, CSS-bearing) rendered through every public route (string_from_read, lines_from_read, coloured, parse_html->dom_to_render_tree->render_to_string/lines on clones, Display of the tree) at several widths from {0,1,2,..,200,10^5,usize::MAX} under a random configuration from the property's product. Oracle: outcome must be Ok or Err(TooNarrow); a panic (location recorded), fuel exhaustion at a hooked loop, another Err, worker death or wall-clock timeout confirmed in isolation is a violation. A case is non-trivial/distinct by the hash of (outcome kind, output text) of a call that returned Ok with non-empty text.",
     assumptions: &[
         "html5ever's tokenizer/tree builder terminate (outside the repository)",
         "non-termination outside the hooked loops is only detected by the wall-clock watchdog (10 s per call group, 5x in isolation; nesting cases budgeted separately)",
@@ -100,6 +100,7 @@ fn thresholds(_tier: Tier) -> Vec<(&'static str, u64)> {
         ("class:mutated", 50),
         ("class:hostile_attr", 20),
         ("class:soup", 20),
+        ("class:unicode_sequences", 20),
         ("class:depth", 10),
         ("outcome:Ok", 500),
         ("outcome:TooNarrow", 50),
@@ -294,7 +295,22 @@ fn run_case(seed: u64, idx: u64, tier: Tier, out: &mut CaseOut) {
     let mut cfg = c01_cfg(&mut rng);
     let input: Vec<u8>;
     match class {
-        0..=7 => {
+        7 => {
+            // text in which the string-width and per-character-width measures disagree
+            out.inc("class:unicode_sequences");
+            let mut p = Profile::full();
+            p.max_blocks = 4;
+            let doc = gen_doc(&mut rng, &p);
+            let base = ser_canonical(&doc);
+            let pm = *rng.pick(&[30usize, 120, 400]);
+            input = gen::sprinkle_unicode(&mut rng, &base, pm);
+            for w in widths.iter_mut().skip(1) {
+                if rng.chance(2, 3) {
+                    *w = rng.range(1, 12);
+                }
+            }
+        }
+        0..=6 => {
             out.inc("class:grammar");
             let mut p = Profile::full();
             p.boundary = if rng.chance(1, 3) { Some(widths[1].clamp(1, 60)) } else { None };
